@@ -17,7 +17,7 @@ if __name__ == '__main__':
     op, N = sys.argv[1], int(sys.argv[2])
     props = sys.argv[3].split(',') if len(sys.argv) > 3 else ['C01','C02','C03','C04','C05','C06','C07','C08','C12','C13']
     prog = load(os.environ.get('CFG', 'dev'))
-    job = {'op': op, 'N': N, 'cfg': os.environ.get('CFG', 'dev'), 'props': props}
+    job = {'op': op, 'N': N, 'cfg': os.environ.get('CFG', 'dev'), 'props': props, 'embedded': bool(os.environ.get('EMBED'))}
     r = harness.run_mutator_job(prog, job)
     v = r.pop('violations'); s = r.pop('samples')
     print(json.dumps(r, indent=1, default=str))
